@@ -29,6 +29,7 @@ def run(fb, rep, tier):
     c11.index_domains(fb, rep, rule='R10.1', suffix='clufactor.hpp', what='floating-point LU', floor=380)
     singular(fb, rep)
     multi_rhs(fb, rep)
+    setup_state(fb, rep)
 
 
 def _is_stat(n):
@@ -271,3 +272,39 @@ def multi_rhs(fb, rep):
                           'right-hand side %s of %s passes the stages %s, the single solve passes %s: its result differs from the single solve' % (s_ or '1', nm, sorted(got), sorted(ref)))
     if k < 40:
         raise AnalysisBroken('R10.3: only %d stage calls found' % k)
+
+
+def setup_state(fb, rep):
+    """R10.4: the solve..4update functions of SLUFactor split on the update type.  A semi-sparse result vector is either "set up" (its index
+    list is valid and size() is its number of nonzeros) or not; the callers in the simplex (updateFtest, updateTest, the ratio tests) ask the
+    vectors for size() without looking at the flag.  Both arms must therefore leave every result vector in the same state (forceSetup, or being
+    handed to setup_and_assign, which sets its argument up)."""
+    rep.rule('R10.4', 'solve..4update: the product-form arm and the Forrest-Tomlin arm leave each semi-sparse result vector in the same set-up state', floor=6)
+    k = 0
+    for f in sorted(fb.methods_of('soplex::SLUFactor<double>'), key=lambda g: g.line):
+        if not re.match(r'solve\d?[rR]ight4update$', f.short or '') or not f.nodes:
+            continue
+        vecs = [pn for pn, pt in f.params if 'SSVectorBase' in pt and not pt.startswith('const ')]
+        for n in f.nodes:
+            if n.k != 'IfStmt' or n.kid('else') is None or 'updateType' not in render(n.kid('cond')) or 'ETA' not in render(n.kid('cond')):
+                continue
+
+            def state(arm, v):
+                st = None
+                for x in arm.walk():
+                    if x.k == 'CXXMemberCallExpr' and x.obj() is not None and render(strip(x.obj())) == v and x.short in ('forceSetup', 'unSetup', 'setup'):
+                        st = 'set up' if x.short != 'unSetup' else 'not set up'
+                    if x.k == 'CXXMemberCallExpr' and x.short == 'setup_and_assign' and x.args() and render(strip(x.args()[0])) == v:
+                        st = 'set up'
+                return st
+            for v in vecs:
+                a, b = state(n.kid('then'), v), state(n.kid('else'), v)
+                if a is None and b is None:
+                    continue
+                k += 1
+                rep.check(a == b, 'R10.4', '%s(%s)|%s' % (f.short, ','.join(re.sub(r'soplex::|<double>|const ', '', t)[:12] for _, t in f.params)[:50], v), '%s:%d' % (f.file, n.l),
+                          'both arms leave %s %s' % (v, a),
+                          'with the product-form update %s is left %s, with Forrest-Tomlin %s: the simplex asks it for size() either way (assertion isSetup() in updateFtest / '
+                          'updateTest with int:factor_update_type=0; without assertions size() is a count that no longer describes its index list)' % (v, a, b))
+    if k < 6:
+        raise AnalysisBroken('R10.4: only %d (function, result vector) pairs found' % k)
